@@ -361,27 +361,30 @@ pub fn run_e1(ctx: &Ctx, prop: P) -> i32 {
     ));
     let mut total_states = 0u64;
     let mut total_transitions = 0u64;
+    let plan = std::sync::Arc::new(plan);
     for (fi, it) in plan.iter().enumerate() {
         let fam = &*it.fam;
         let cfgs = &it.cfgs;
-        let plan_ref = &plan;
-        let prop_id = prop.id().to_string();
         let opts = SweepOpts {
             threads: threads(),
-            wall_limit_s: 30,
+            wall_limit_s: 10,
             on_stuck: Box::new({
-                let prop_id = prop_id.clone();
-                let out_dir = crate::report::verif_root().join("replays").join(&prop_id);
-                move |_f, idx| {
-                    // written by the monitor thread: the stuck case itself
-                    let _ = std::fs::create_dir_all(&out_dir);
-                    let path = out_dir.join(format!("stuck-{idx}.json"));
-                    let _ = std::fs::write(&path, format!("{{\"kind\":\"stuck\",\"index\":{idx}}}"));
+                let plan = plan.clone();
+                let prop_id = prop.id().to_string();
+                move |f, idx| {
+                    let case = plan[f].fam.get(idx);
+                    let cfgs: Vec<RunCfg> = plan[f].cfgs.iter().map(|c| prop.shape(c.1.clone())).collect();
                     if prop_id == "C04" {
-                        println!("VIOLATION property=C04 replay={}", path.display());
-                        println!("  what: an execution exceeded the 30 s wall limit (non-termination)");
+                        Some(Violation {
+                            property: prop_id.clone(),
+                            signature: "nontermination".into(),
+                            what: "an execution (solve or conflict rendering) exceeded the 30 s wall limit".into(),
+                            replay: json!({"kind": "stuck-e1", "case": case, "cfgs": cfgs, "universe": case.u.describe(&case.p)}),
+                            order: (f, idx, 0),
+                        })
                     } else {
-                        eprintln!("MACHINERY ERROR: an execution exceeded the wall limit (see C04); index {idx}");
+                        eprintln!("NOTE: an execution exceeded the wall limit at family {f} index {idx}; termination is C04's subject, the case is skipped here");
+                        None
                     }
                 }
             }),
@@ -389,7 +392,6 @@ pub fn run_e1(ctx: &Ctx, prop: P) -> i32 {
             stride: it.stride,
             offset: if it.stride > 1 { ctx.seed % it.stride } else { 0 },
         };
-        let _ = plan_ref;
         let acc = sweep(fam, &opts, &|idx, case, acc| {
             if !is_wellformed(case) {
                 acc.count("skipped_not_wellformed");
@@ -544,6 +546,28 @@ pub fn replay(path: &str) -> i32 {
                 1
             }
         }
+        Some("stuck-e1") => {
+            let case: Case = serde_json::from_value(r["case"].clone()).expect("case");
+            let cfgs: Vec<RunCfg> = serde_json::from_value(r["cfgs"].clone()).expect("cfgs");
+            let (tx, rx) = std::sync::mpsc::channel();
+            std::thread::spawn(move || {
+                for cfg in &cfgs {
+                    let _ = run_case(&case.u, &case.p, cfg);
+                }
+                let _ = tx.send(());
+            });
+            match rx.recv_timeout(std::time::Duration::from_secs(30)) {
+                Ok(()) => {
+                    println!("replay: terminates");
+                    0
+                }
+                Err(_) => {
+                    println!("replay: still does not terminate within 30 s");
+                    println!("VIOLATION property={prop} replay={path}");
+                    1
+                }
+            }
+        }
         k => {
             eprintln!("unknown replay kind {k:?}");
             2
@@ -582,17 +606,20 @@ pub fn show(path: &str) {
 // E2 / E3 / E4 plans (C10 - C13)
 // ---------------------------------------------------------------------------
 
-fn generic_stuck(prop: String) -> Box<dyn Fn(usize, u64) + Sync + Send> {
+fn generic_stuck(prop: String, fams: std::sync::Arc<Vec<(Box<dyn Family>, u64)>>) -> Box<dyn Fn(usize, u64) -> Option<Violation> + Sync + Send> {
     Box::new(move |f, idx| {
-        let dir = crate::report::verif_root().join("replays").join(&prop);
-        let _ = std::fs::create_dir_all(&dir);
-        let path = dir.join(format!("stuck-{f}-{idx}.json"));
-        let _ = std::fs::write(&path, format!("{{\"kind\":\"stuck\",\"family\":{f},\"index\":{idx}}}"));
-        if prop == "C10" || prop == "C13" || prop == "C04" {
-            println!("VIOLATION property={prop} replay={}", path.display());
-            println!("  what: an execution exceeded the wall limit (non-termination)");
+        let case = fams[f].0.get(idx);
+        if prop == "C10" || prop == "C13" {
+            Some(Violation {
+                property: prop.clone(),
+                signature: "nontermination".into(),
+                what: "the exploration of one instance exceeded the wall limit (an execution does not terminate)".into(),
+                replay: json!({"kind": "stuck", "case": case, "universe": case.u.describe(&case.p)}),
+                order: (f, idx, 0),
+            })
         } else {
-            eprintln!("MACHINERY ERROR: an execution exceeded the wall limit; family {f} index {idx}");
+            eprintln!("NOTE: an execution exceeded the wall limit at family {f} index {idx}; skipped");
+            None
         }
     })
 }
@@ -648,11 +675,12 @@ pub fn run_e2(ctx: &Ctx) -> i32 {
             AsyncPlan { mask: K_CANDS | K_DEPS, pairs: true, hint: None, complete_cap: 20000, dev_bound: 2, dev_cap: 50000 },
         ]
     };
+    let fams = std::sync::Arc::new(fams);
     for (fi, (fam, stride)) in fams.iter().enumerate() {
         let opts = SweepOpts {
             threads: threads(),
             wall_limit_s: 120,
-            on_stuck: generic_stuck(prop.clone()),
+            on_stuck: generic_stuck(prop.clone(), fams.clone()),
             fam_no: fi,
             stride: *stride,
             offset: if *stride > 1 { ctx.seed % *stride } else { 0 },
